@@ -36,7 +36,7 @@ ASSUMPTIONS = ["CPU generator only (RNGState saves torch.get_rng_state(); CUDA g
                "collectives issued inside user state_dict() are outside the model"]
 
 KEY_POOL = ["b", "d", "f", "h", "model", "optim", "Z", "été", "k/1", "x y"]
-RNG_KEYS = ["a", "c", "e", "g", "z", "rng_state", "A", "0", "ÿ", "n"]
+RNG_KEYS = ["a", "c", "e", "g", "z", "rng_state", "A", "0", "ÿ", "n", "trainer/rng", "r%ng", "t/r%2F"]   # incl. keys that flatten() must escape
 TREE_KEYS = ["a", "b", "w", 1, "x y", "é"]
 
 
